@@ -12,7 +12,12 @@ from quara.objects.state_typical import get_state_names_1qubit, generate_state_f
 
 
 def get_state_ensemble_names():
-    names = get_state_names_1qubit()
+    # only the 1-qubit state names for which a state ensemble is defined in this module
+    names = [
+        name
+        for name in get_state_names_1qubit()
+        if f"get_state_ensemble_{name}_elements" in globals()
+    ]
     return names
 
 
